@@ -231,7 +231,7 @@ def run_pipe(case):
                     bad = f"x has {len(x)} rows, logl {len(ll)}"
                 else:
                     for i in range(len(x)):
-                        if not (f(x[i]) == ll[i]) or (bl is not None and not (targets.blob_of(x[i]) == float(np.ravel(bl[i])[0]))):
+                        if not (f(x[i]) == ll[i]) or (bl is not None and not (targets.blob_expected(x[i], p.cfg) == float(np.ravel(bl[i])[0]))):
                             bad = f"row {i}: logl/blob do not belong to x"
                             break
                 if bad:
@@ -271,7 +271,7 @@ def run_pipe1(case):
                     continue
             x, ll = out[0], out[2]
             bl = out[3] if (rb and want_blobs and len(out) > 3) else None
-            ok = len(x) == len(ll) and all(f(x[i]) == ll[i] and (bl is None or targets.blob_of(x[i]) == float(np.ravel(bl[i])[0])) for i in range(len(x)))
+            ok = len(x) == len(ll) and all(f(x[i]) == ll[i] and (bl is None or targets.blob_expected(x[i], p.cfg) == float(np.ravel(bl[i])[0])) for i in range(len(x)))
             if not ok:
                 res.violate("pipe:posterior:record", f"posterior(resample={rs}, trim={trim}, return_blobs={rb}) rows are not whole records", case)
     return res
@@ -318,17 +318,18 @@ FACTORS = [
     ("clu", ["off", "on", "on-nonorm", "on-cap2"]),
     ("vv", [None, 0.5]),
     ("eval", ["vec", "scalar", "blobs", "poolobj_blobs"]),
-    ("boundary", ["none", "per0", "ref1", "per0ref1"]),
+    ("boundary", ["none", "per0", "ref1", "per0ref1", "sets"]),
     ("prior", ["affine", "nonlinear"]),
     ("target", ["gauss", "bimodal", "unequal", "sharp"]),
     ("cluster_every", [1, 3]),
     ("n_steps", [None, 3]),
     ("n_particles", [24, 12]),
+    ("blob_dtype", [None, "int64", "float32", "int16"]),  # type of the scalar blob (only with blobs)
 ]
 
 
 def cfg_of(row):
-    c = {k: row[k] for k in ("sample", "resample", "vv", "eval", "boundary", "prior", "target", "cluster_every", "n_steps", "n_particles")}
+    c = {k: row[k] for k in ("sample", "resample", "vv", "eval", "boundary", "prior", "target", "cluster_every", "n_steps", "n_particles", "blob_dtype")}
     c["n_total"] = 4 * row["n_particles"]
     clu = row["clu"]
     c["clustering"] = clu != "off"
